@@ -1128,7 +1128,11 @@ def io_case(draw, tier, shapes=("streams", "streams", "streams", "accept", "badf
                         tail += [op("yield", draw(ints(1, 3))), op("echopair", draw(ints(1, 40)))]
                     if tail:
                         fibers.append([op("yield", draw(ints(10, 40)))])   # somebody to switch to in between
-                    fibers.append([op("rd", a, 100, draw(ints(0, 4)))] + tail)
+                    # the waiter is a blocking read, or (one in four) the public wait entry point called with an empty event mask
+                    first = op("rd", a, 100, draw(ints(0, 4))) if draw(ints(0, 3)) else op("waitnone", a, draw(st.sampled_from([0, 4, 8])))
+                    if first[0] == "waitnone":
+                        classes.append("wait_with_empty_mask")
+                    fibers.append([first] + tail)
                     fibers.append(small_ops(draw, 2) + [op("yield", draw(ints(1, 4))), op("rclose", a)])
                     continue
                 total = draw(st.sampled_from([1, 10, 500, 5000, 70000, 300000])) if tier == "thorough" or draw(ints(0, 3)) else draw(st.sampled_from([1, 10, 500, 5000]))
